@@ -105,6 +105,9 @@ def random_case(draw, tier="quick"):
     alpha = draw(G.alphabet())
     cdr3 = draw(st.booleans()) and alpha == G.AA
     seqs = draw(G.clonal_family(alpha=alpha, max_size=60 if tier == "quick" else 120, cdr3_like=cdr3))
+    if draw(st.integers(0, 3)) == 0:
+        dup = draw(st.sampled_from(seqs))
+        seqs = list(draw(st.permutations(list(seqs) + [dup] * draw(st.integers(2, 4)))))   # 3-5 copies of one sequence
     k = draw(st.sampled_from([1, 1, 2, 2, 3, 4]))
     engine = draw(st.sampled_from(["nearest_neighbor", "symdel"]))
     return {"seqs": seqs, "k": k, "engine": engine}
